@@ -248,3 +248,184 @@ func specFixedOf(p ControlPacket) bits {
 
 // specMalformedFmt is the format withForm uses to mark a malformed packet.
 const specMalformedFmt = "%s, malformed! %s %s"
+
+// ---- round trips: the real encoder followed by the real decoder (C01) ----
+//
+// Each rt function runs the library's own encoder and then the library's own
+// decoder on the bytes just written; its contract (contracts_verif.go) states
+// that the value comes back and that the decoder stops exactly behind the
+// bytes the encoder wrote. Nothing here is reachable from the library.
+
+func rtBits(v bits, buf []byte, i int) (bits, int, error) {
+	v.fill(buf, i)
+	b := &buffer{data: buf, i: i}
+	var x bits
+	b.get(&x)
+	return x, b.i, b.err
+}
+
+func rtBool(v wbool, buf []byte, i int) (wbool, int, error) {
+	v.fill(buf, i)
+	b := &buffer{data: buf, i: i}
+	var x wbool
+	b.get(&x)
+	return x, b.i, b.err
+}
+
+func rtU16(v wuint16, buf []byte, i int) (wuint16, int, error) {
+	v.fill(buf, i)
+	b := &buffer{data: buf, i: i}
+	var x wuint16
+	b.get(&x)
+	return x, b.i, b.err
+}
+
+func rtU32(v wuint32, buf []byte, i int) (wuint32, int, error) {
+	v.fill(buf, i)
+	b := &buffer{data: buf, i: i}
+	var x wuint32
+	b.get(&x)
+	return x, b.i, b.err
+}
+
+func rtVbint(v vbint, buf []byte, i int) (vbint, int, error) {
+	lemmaVbRoundTrip(uint(v))
+	v.fill(buf, i)
+	b := &buffer{data: buf, i: i}
+	var x vbint
+	b.get(&x)
+	return x, b.i, b.err
+}
+
+func rtBindata(v bindata, buf []byte, i int) (bindata, int, error) {
+	v.fill(buf, i)
+	b := &buffer{data: buf, i: i}
+	var x bindata
+	b.get(&x)
+	return x, b.i, b.err
+}
+
+func rtRawdata(v rawdata, buf []byte, i int) (rawdata, int, error) {
+	v.fill(buf, i)
+	b := &buffer{data: buf[:i+len(v)], i: i}
+	var x rawdata
+	b.get(&x)
+	return x, b.i, b.err
+}
+
+func rtUserProp(v UserProp, buf []byte, i int) (UserProp, int, error) {
+	v.fill(buf, i)
+	b := &buffer{data: buf, i: i}
+	var x UserProp
+	b.get(&x)
+	return x, b.i, b.err
+}
+
+// specRemLen is the remaining length of a frame of n bytes in all: n minus the first byte and the bytes of
+// the minimal variable byte integer that encodes the result (by cases on the four widths).
+func specRemLen(n int) int {
+	switch {
+	case n-2 < 128:
+		return n - 2
+	case n-3 < 16384:
+		return n - 3
+	case n-4 < 2097152:
+		return n - 4
+	}
+	return n - 5
+}
+
+// rt<Type> encodes p with the real encoder and decodes the frame, behind its fixed header, into q, a packet
+// as ReadRemaining makes it for that frame (first byte taken from the frame, everything else zero; a frame
+// with remaining length 0 is not handed to the decoder).
+
+func rtPubAck(p, q *PubAck) error {
+	n := p.fill(_LEN, 0)
+	buf := make([]byte, n)
+	p.fill(buf, 0)
+	rl := vbint(specRemLen(n))
+	lemmaVbRoundTrip(uint(p.properties(_LEN, 0)))
+	q.fixed = bits(buf[0])
+	if rl == 0 {
+		return nil
+	}
+	return q.UnmarshalBinary(buf[1+rl.width():])
+}
+
+func rtPubRec(p, q *PubRec) error {
+	n := p.fill(_LEN, 0)
+	buf := make([]byte, n)
+	p.fill(buf, 0)
+	rl := vbint(specRemLen(n))
+	lemmaVbRoundTrip(uint(p.properties(_LEN, 0)))
+	q.fixed = bits(buf[0])
+	if rl == 0 {
+		return nil
+	}
+	return q.UnmarshalBinary(buf[1+rl.width():])
+}
+
+func rtPubRel(p, q *PubRel) error {
+	n := p.fill(_LEN, 0)
+	buf := make([]byte, n)
+	p.fill(buf, 0)
+	rl := vbint(specRemLen(n))
+	lemmaVbRoundTrip(uint(p.properties(_LEN, 0)))
+	q.fixed = bits(buf[0])
+	if rl == 0 {
+		return nil
+	}
+	return q.UnmarshalBinary(buf[1+rl.width():])
+}
+
+func rtPubComp(p, q *PubComp) error {
+	n := p.fill(_LEN, 0)
+	buf := make([]byte, n)
+	p.fill(buf, 0)
+	rl := vbint(specRemLen(n))
+	lemmaVbRoundTrip(uint(p.properties(_LEN, 0)))
+	q.fixed = bits(buf[0])
+	if rl == 0 {
+		return nil
+	}
+	return q.UnmarshalBinary(buf[1+rl.width():])
+}
+
+func rtConnAck(p, q *ConnAck) error {
+	n := p.fill(_LEN, 0)
+	buf := make([]byte, n)
+	p.fill(buf, 0)
+	rl := vbint(specRemLen(n))
+	lemmaVbRoundTrip(uint(p.properties(_LEN, 0)))
+	q.fixed = bits(buf[0])
+	if rl == 0 {
+		return nil
+	}
+	return q.UnmarshalBinary(buf[1+rl.width():])
+}
+
+func rtDisconnect(p, q *Disconnect) error {
+	n := p.fill(_LEN, 0)
+	buf := make([]byte, n)
+	p.fill(buf, 0)
+	rl := vbint(specRemLen(n))
+	lemmaVbRoundTrip(uint(p.properties(_LEN, 0)))
+	q.fixed = bits(buf[0])
+	if rl == 0 {
+		return nil
+	}
+	return q.UnmarshalBinary(buf[1+rl.width():])
+}
+
+func rtAuth(p, q *Auth) error {
+	n := p.fill(_LEN, 0)
+	buf := make([]byte, n)
+	p.fill(buf, 0)
+	rl := vbint(specRemLen(n))
+	lemmaVbRoundTrip(uint(p.properties(_LEN, 0)))
+	q.fixed = bits(buf[0])
+	if rl == 0 {
+		return nil
+	}
+	return q.UnmarshalBinary(buf[1+rl.width():])
+}
